@@ -159,6 +159,7 @@ def check_extract_x(case, rec):
     check_extract(case, rec, True)
 
 
+SHRINK = {'eval', 'eval-x'}
 CHECKS = {'eval': check_eval, 'eval-x': check_eval_x, 'extract': check_extract, 'extract-x': check_extract_x}
 
 TOKS = ['2', '7', '.5', '10', '+', '-', '*', '/', '\\', '(', ')']
